@@ -772,12 +772,16 @@ func (w *World) paramsMsg(op *Op, named Addr) sdk.Msg {
 }
 
 // govWrap turns messages into a proposal submission plus the delegator's yes vote.
-func (w *World) govWrap(msgs []sdk.Msg) ([]sdk.Msg, Addr, error) {
+func (w *World) govWrap(msgs []sdk.Msg, veto bool) ([]sdk.Msg, Addr, error) {
 	proposer := w.acct(0)
 	sub, err := govv1.NewMsgSubmitProposal(msgs, sdk.NewCoins(sdk.NewInt64Coin(lab.BondDenom, 1)), proposer.Bytes.String(), "", "t", "s")
 	if err != nil {
 		return nil, proposer, err
 	}
-	vote := govv1.NewMsgVote(proposer.Bytes, w.NextPropID, govv1.OptionYes, "")
+	opt := govv1.OptionYes
+	if veto {
+		opt = govv1.OptionNoWithVeto // the proposal is rejected and its deposit burned (the protocol's burn path)
+	}
+	vote := govv1.NewMsgVote(proposer.Bytes, w.NextPropID, opt, "")
 	return []sdk.Msg{sub, vote}, proposer, nil
 }
